@@ -69,3 +69,50 @@ def check_seq_eq(ctx, name, got, want):
     ctx.check(name + '.len', len(g) == len(w), got=len(g), want=len(w))
     for i, (a, b) in enumerate(zip(g, w)):
         ctx.check('%s[%d]' % (name, i), eq(a, b))
+
+
+# --------------------------------------------------------------------------- TRXD reference layout (DESIGN.md appendix C)
+def u8(x):
+    """two's complement octet of a value in -128..255"""
+    if isinstance(x, int): return x & 0xff
+    return ite(x < 0, x + 256, x)
+
+
+def be16s(x):
+    """big-endian two's complement of int16 -> [hi, lo]"""
+    u = (x + 65536) % 65536 if isinstance(x, int) else ite(x < 0, x + 65536, x)
+    return [u // 256, u % 256]
+
+
+def from_be16s(hi, lo):
+    u = hi * 256 + lo
+    if isinstance(u, int): return u - 65536 if u >= 32768 else u
+    return ite(u >= 32768, u - 65536, u)
+
+
+def layout_chdr(ver, tn, fn):
+    return [ver * 16 + tn, fn // 16777216, (fn // 65536) % 256, (fn // 256) % 256, fn % 256]
+
+
+def layout_tx(ver, tn, fn, pwr, ubits, legacy):
+    out = layout_chdr(ver, tn, fn) + [pwr] + list(ubits)
+    if legacy and ver == 0: out += [0, 0]
+    return out
+
+
+def layout_rx(ver, tn, fn, rssi, toa256, sbits, legacy, nope=False, mod=None, tsc_set=None, tsc=None, ci=None):
+    out = layout_chdr(ver, tn, fn) + [-rssi] + be16s(toa256)
+    if ver >= 1:
+        if nope: out.append(0x80)
+        else: out.append((MOD_CODING[mod] + tsc_set) * 8 + tsc)
+        out += be16s(ci)
+    if sbits is not None:
+        out += [127 - b for b in sbits]
+    if legacy and ver == 0: out += [0, 0]
+    return out
+
+
+def usbit_to_sbit(o):
+    """soft-bit value of a received octet: 127 - o, with 255 read as -127"""
+    if isinstance(o, int): return -127 if o == 255 else 127 - o
+    return ite(eq(o, 255), -127, 127 - o)
